@@ -146,6 +146,7 @@ class _ParseTreeProcessor(parsimonious.NodeVisitor):
         self._statement_stream_processor = statement_stream_processor  # type: StatementStreamProcessor
         self._current_line_number = 1  # Lines are numbered from one
         self._comment = ""
+        self._comment_seen = False  # Whether a comment line has been seen since the last flush, even an empty one.
         self._comment_is_header = True
         self._pending_attribute_line = None  # type: typing.Optional[int]
         self._strict = bool(strict)
@@ -171,6 +172,7 @@ class _ParseTreeProcessor(parsimonious.NodeVisitor):
         self._pending_attribute_line = None
         self._comment_is_header = False
         self._comment = ""
+        self._comment_seen = False
 
     def generic_visit(self, node: _Node, visited_children: typing.Sequence[typing.Any]) -> typing.Any:
         """If the node has children, replace the node with them."""
@@ -181,7 +183,7 @@ class _ParseTreeProcessor(parsimonious.NodeVisitor):
         if len(node.text.strip()) == 0:
             # Line is empty (possibly except for blanks), flush comment.
             # Empty lines above the header comment end nothing: the header comment is yet to come.
-            if not (self._comment_is_header and self._comment == ""):
+            if not (self._comment_is_header and not self._comment_seen):
                 self._flush_comment()
 
     def visit_end_of_line(self, _n: _Node, _c: _Children) -> None:
@@ -201,6 +203,7 @@ class _ParseTreeProcessor(parsimonious.NodeVisitor):
     def visit_comment(self, node: _Node, children: _Children) -> None:
         _ = children
         assert isinstance(node.text, str)
+        self._comment_seen = True
         self._comment += "\n" if self._comment != "" else ""
         self._comment += node.text[2:] if node.text.startswith("# ") else node.text[1:]
 
